@@ -230,7 +230,7 @@ example :
     table, gives object i — supplied per item by `pbf_bytes_roundtrip_node/way/relation`).  Ingredient of the
     unconditional `pbf_block_roundtrip` below (the writer invariant provides `ItemsDec`). -/
 theorem pbf_block_decode_items (k : Nat) (hk : k = 1 ∨ k = 3 ∨ k = 4) (strs : List Bytes) (pls : List Bytes)
-    (obs : List Object) (hs : ∀ s ∈ strs, s.length ≤ 1024) (hitems : ItemsDec k { strings := strs } pls obs)
+    (obs : List Object) (hs : ∀ s ∈ strs, StrOk s) (hitems : ItemsDec k { strings := strs } pls obs)
     (hpl : ∀ pl ∈ pls, pl.length < 2 ^ 32) :
     decodeBlock {} [fBytes 1 (encodeFields (strs.map (fBytes 1))), fBytes 2 (encodeFields (pls.map (fBytes k)))] = some obs :=
   block_decode k hk strs pls obs hs hitems hpl
@@ -307,7 +307,7 @@ example : (encHeader {} { generator := [0x67], boxes := [(⟨-1301, -5⟩, ⟨7,
 
 /-- The blocks the Writer emits, for EVERY object sequence of the domain (`ObjInDomain`: int64 ids, version / uid
     < 2^31, uint32 timestamp / changeset, int32 coordinates, member types node / way / relation, strings of at
-    most 1024 bytes; changesets are skipped by the PBF output) and EVERY option vector, provided no `SerializeBlob`
+    most 1024 bytes without NUL byte (`StrOk`: C strings; `decode_stringtable` rejects both, the NUL since repair da64936); changesets are skipped by the PBF output) and EVERY option vector, provided no `SerializeBlob`
     reported an error (the 32 MiB guards): there is a split of the projected sequence into consecutive runs
     `blocks` — one per data blob, in order (`All2`) — such that each blob is the framing of a PrimitiveBlock message
     whose decoding by `PBFPrimitiveBlockDecoder` (string table pass + data pass; plain and dense groups) gives exactly
@@ -357,7 +357,8 @@ example :
   intro ob hob
   simp only [List.mem_cons, List.not_mem_nil, or_false] at hob
   rcases hob with rfl | rfl | rfl | rfl | rfl <;>
-    simp [ObjInDomain, MetaInDomain, IdOk, LocOk, MetaStrOk, WayInDomain, RelInDomain, Location.undefined]
+    simp [ObjInDomain, MetaInDomain, IdOk, LocOk, MetaStrOk, WayInDomain, RelInDomain, Location.undefined] <;>
+    decide
 
 /-- Tie of the model's constants to the CURRENT source: `Generated/Consts.lean` is regenerated from
     /repo/include on every run (tools/consts.py); the kernel decides the equations. -/
